@@ -34,15 +34,16 @@ type obsJ struct {
 }
 
 type statusShape struct {
-	Nodes     int    `json:"nodes"`
-	Count     int    `json:"count"`
-	Prior     int    `json:"prior"`
-	Strategy  string `json:"strategy"`
-	StartFail []int  `json:"start_fail,omitempty"` // ERU_WORKLOAD_SEQ whose start fails
-	Fault     string `json:"fault,omitempty"`      // ckit address kind|nodeIndex|ord ("" none)
-	PriorOn   int    `json:"prior_on,omitempty"`   // >0: the prior deployment goes to node n<k> only (FILL then plans 0 for it)
-	TimeoutMs int    `json:"timeout_ms,omitempty"` // >0: GlobalTimeout of the cluster; the engine create of seq 0 blocks for 1.3x that long
-	CancelAt  string `json:"cancel_at,omitempty"`  // "<intercepted step>|<k>": the CALLER's context is cancelled right after the k-th such step
+	Nodes      int    `json:"nodes"`
+	Count      int    `json:"count"`
+	Prior      int    `json:"prior"`
+	Strategy   string `json:"strategy"`
+	StartFail  []int  `json:"start_fail,omitempty"`  // ERU_WORKLOAD_SEQ whose start fails
+	Fault      string `json:"fault,omitempty"`       // ckit address kind|nodeIndex|ord ("" none)
+	PriorOn    int    `json:"prior_on,omitempty"`    // >0: the prior deployment goes to node n<k> only (FILL then plans 0 for it)
+	TimeoutMs  int    `json:"timeout_ms,omitempty"`  // >0: GlobalTimeout of the cluster; the engine create of seq 0 blocks for 1.3x that long
+	DeadlineMs int    `json:"deadline_ms,omitempty"` // >0: the CALLER\'s context has this deadline; the engine create of seq 0 blocks for 1.5x that long (expiry, not cancel)
+	CancelAt   string `json:"cancel_at,omitempty"`   // "<intercepted step>|<k>": the CALLER's context is cancelled right after the k-th such step
 }
 
 type statusCase struct {
@@ -202,6 +203,11 @@ func runStatus(t *testing.T, sh statusShape, id, tag string) *statusCase {
 	for _, s := range sh.StartFail {
 		hub.scripts[s] = ctScript{StartFail: true}
 	}
+	if sh.DeadlineMs > 0 { // the caller's deadline passes while the first instance is being created
+		sc := hub.scripts[0]
+		sc.CreateDelayMs = sh.DeadlineMs * 15 / 10
+		hub.scripts[0] = sc
+	}
 	if sh.TimeoutMs > 0 { // the first instance's engine create outlasts the deployment's global timeout
 		sc := hub.scripts[0]
 		sc.CreateDelayMs = sh.TimeoutMs * 13 / 10
@@ -226,6 +232,10 @@ func runStatus(t *testing.T, sh statusShape, id, tag string) *statusCase {
 	count := sh.Count
 	ctx, cancel := context.WithCancel(cl.Ctx())
 	defer cancel()
+	if sh.DeadlineMs > 0 {
+		ctx, cancel = context.WithTimeout(cl.Ctx(), time.Duration(sh.DeadlineMs)*time.Millisecond)
+		defer cancel()
+	}
 	if sh.CancelAt != "" {
 		parts := splitN(sh.CancelAt, "|", 2)
 		o.mu.Lock()
@@ -300,6 +310,8 @@ func genStatus(t *testing.T, out *hx.Out, budget int) {
 		// FILL over a node that is already full: it stays in the plan with 0 and gets a marker holding 0
 		{Nodes: 2, Count: 2, Prior: 2, PriorOn: 1, Strategy: "FILL"},
 		{Nodes: 3, Count: 1, Prior: 1, PriorOn: 2, Strategy: "FILL"},
+		// the caller's DEADLINE expires in the middle of the deployment (not a cancel): markers must still go
+		{Nodes: 2, Count: 3, Prior: 1, Strategy: "AUTO", DeadlineMs: 600},
 		// the deployment runs into its global timeout: the marker cleanup must still work
 		{Nodes: 2, Count: 2, Prior: 1, Strategy: "AUTO", TimeoutMs: 1500},
 	}
